@@ -396,12 +396,13 @@ pub fn run(args: &Args) -> Report {
     rep.bounds.insert("histories_per_end".into(), serde_json::json!(hs.len()));
     rep.bounds.insert("alphabet".into(), serde_json::json!(op_str(&alphabet())));
     let plan = Plan {
-        ks: if thorough { vec![0, 1, 2, 3] } else { vec![0, 1, 2] },
+        ks: if thorough { vec![0, 1, 2, 3] } else { vec![0, 1] },
         env: 0,
         fault: 1,
-        total_wall: Duration::from_secs(if thorough { 1500 } else { 30 }),
+        total_wall: Duration::from_secs(if thorough { 1500 } else { 50 }),
         max_execs_per_case: 100_000,
         required_witnesses: W_EOF_SEEN | W_BROKEN_PIPE | W_HALF_CLOSE_DATA | W_RESET | W_CONN_END,
+        adaptive: thorough,
         witness_names: &[("eof_observed", W_EOF_SEEN), ("broken_pipe_observed", W_BROKEN_PIPE), ("data_flowed_after_half_close", W_HALF_CLOSE_DATA), ("reset_on_wire", W_RESET), ("orderly_connection_end_injected", W_CONN_END)],
     };
     rep.rule = "psim: one stream between two real endpoints; EVERY pair of operation histories (alphabet above, length <= L per end, implicit drop at the end, operations continue after a failed write) x every schedule with <= k deviations; reference model per direction = byte queue + {open, finished, aborted}: a read may return 0 only after the writer's shutdown/drop and only with all accepted bytes returned; writes after own shutdown or after the processed peer abort must fail with BrokenPipe; BrokenPipe needs a cause; no Push after own Finish on the wire; a blocked read needs a reason to block; flow tables empty at the end".into();
